@@ -215,8 +215,6 @@ def run_case(case):
             if res.exc:
                 return (f"check:{kind}:{res.exc[0]}", f"{desc}\n{res.exc[1]}")
             parsed = cli.parse_check_output(res.out)
-            if parsed["other"]:
-                return ("check:unparseable", f"{desc}: {parsed['other']!r}")
             got = {}
             for path, line, col, ln, sym, name in parsed["findings"]:
                 key = path
@@ -237,8 +235,9 @@ def run_case(case):
                     return (f"check:{kind}:findings-differ", f"{desc}: {k}: check lists {got[k]}, scan measures {want[k]}")
                 if [g[2] for g in got[k]] != sorted([g[2] for g in got[k]], reverse=True):
                     return (f"check:{kind}:order", f"{desc}: {k}: {got[k]} not longest first")
-            if parsed["files_checked"] != len(under):
-                return (f"check:{kind}:files-checked", f"{desc}: '{parsed['files_checked']} files checked', scan analyses {len(under)} files there: {sorted(under)}")
+            bad = cli.summary_matches(parsed, len(under), sum(len(v) for v in want.values()))
+            if bad:
+                return (f"check:{kind}:files-checked", f"{desc}: {bad}; scan analyses {len(under)} files there: {sorted(under)}")
             want_code = 1 if any(t[2] > 60 for k in want for t in want[k]) else 0
             if res.code != want_code:
                 return (f"check:{kind}:exit-status", f"{desc}: exit {res.code}, expected {want_code}")
